@@ -67,6 +67,20 @@ CHECKS = {
         'Observes context_info (the audit accessor named by the statement), '
         'not the allocator; streams are bounded at ~4 MiB.',
         'DESIGN.md section 4 C05'),
+    'C06': (
+        'fault enumeration with instrumented inspectors + differential '
+        'against shadow inspectors; multi-fault plans with Hypothesis',
+        'fault_enumeration',
+        'Every single fault (10 inspectors x every chunk index x 6 exception '
+        'classes) x expected_format in {None, ten names} x read/iteration on '
+        'eight fixed sources is enumerated; multiple simultaneous faults, '
+        'allowed_formats subsets and generated sources are sampled. The '
+        'reader\'s bytes, the calls reaching every inspector, which read '
+        'raises which exception object, the source position after an abort '
+        'and finish/close are compared with what shadow inspectors predict.',
+        'Exception subclasses only (no KeyboardInterrupt); relies on '
+        'InspectWrapper building inspectors from ALL_FORMATS (guarded).',
+        'DESIGN.md section 4 C06'),
     'C07': (
         'round trip against layout-built ground truth + prefix enumeration '
         '(Hypothesis + exhaustive sweeps)',
